@@ -1,0 +1,313 @@
+// Copyright 2020-2025 Buf Technologies, Inc.
+//
+// Licensed under the Apache License, Version 2.0 (the "License");
+// you may not use this file except in compliance with the License.
+// You may obtain a copy of the License at
+//
+//      http://www.apache.org/licenses/LICENSE-2.0
+//
+// Unless required by applicable law or agreed to in writing, software
+// distributed under the License is distributed on an "AS IS" BASIS,
+// WITHOUT WARRANTIES OR CONDITIONS OF ANY KIND, either express or implied.
+// See the License for the specific language governing permissions and
+// limitations under the License.
+
+//go:build verif
+
+package bufworkspace
+
+// Contracts for the gocv verifier (see /verif/DESIGN.md). Comment-only. (author ca-A2)
+// Spec functions a2_*: /verif/specs/C10_workspace.spec; ancOrSelf, validRel: paths.spec; e_relTo: C16.spec.
+//
+// C10: which modules of a workspace are targets for an input directory and a --path / --exclude-path set, and how
+// the paths are re-based onto the module directory (module_targeting.go, workspace_targeting.go).
+//
+// A BucketTargeting is an immutable value seen through its accessors (trusted).
+//@ trusted pure interface buftarget.BucketTargeting
+//@ trusted pure interface buftarget.ControllingWorkspace
+//
+// applyRootsToTargetPath: a path must lie strictly inside exactly ONE root of the module; it is then re-based onto
+// that root. No root, or more than one, is an error (never an arbitrary choice).
+//@ pure func applyRootsToTargetPath(roots, path, pathType) (r, err)
+//@   property C10
+//@   requires pathType == normalpath.Relative && validRel(path) && path != "."
+//@   requires forall j int :: 0 <= j && j < len(roots) ==> validRel(roots[j])
+//@   ensures no-root-is-error: (forall j int :: 0 <= j && j < len(roots) ==> !a2_strictIn(roots[j], path)) ==> err != nil && r == ""
+//@   ensures two-roots-is-error: (exists a int, b int :: 0 <= a && a < b && b < len(roots) && a2_strictIn(roots[a], path) && a2_strictIn(roots[b], path)) ==> err != nil && r == ""
+//@   ensures single-root-rebased: forall j int :: 0 <= j && j < len(roots) && a2_strictIn(roots[j], path) && (forall k int :: 0 <= k && k < len(roots) && k != j ==> !a2_strictIn(roots[k], path)) ==> err == nil && r == normalpath.Normalize(e_relTo(roots[j], path))
+//@   ensures success-means-single-root: err == nil ==> (exists j int :: 0 <= j && j < len(roots) && a2_strictIn(roots[j], path) && r == normalpath.Normalize(e_relTo(roots[j], path)) && (forall k int :: 0 <= k && k < len(roots) && k != j ==> !a2_strictIn(roots[k], path)))
+//@   canary ensures err != nil
+//@   loop 0 invariant matching-are-containing: forall k int :: 0 <= k && k < len(matchingRoots) ==> (exists j int :: 0 <= j && j < $i && roots[j] == matchingRoots[k] && normalpath.ContainsPath(roots[j], path, normalpath.Relative))
+//@   loop 0 invariant containing-are-matching: forall j int :: 0 <= j && j < $i && normalpath.ContainsPath(roots[j], path, normalpath.Relative) ==> (exists k int :: 0 <= k && k < len(matchingRoots) && matchingRoots[k] == roots[j])
+//@   loop 0 invariant none-yet: (forall j int :: 0 <= j && j < $i ==> !normalpath.ContainsPath(roots[j], path, normalpath.Relative)) ==> len(matchingRoots) == 0
+//@   loop 0 invariant two-seen: (exists a int, b int :: 0 <= a && a < b && b < $i && normalpath.ContainsPath(roots[a], path, normalpath.Relative) && normalpath.ContainsPath(roots[b], path, normalpath.Relative)) ==> len(matchingRoots) >= 2
+//@   loop 0 invariant two-means-two: len(matchingRoots) >= 2 ==> (exists a int, b int :: 0 <= a && a < b && b < $i && normalpath.ContainsPath(roots[a], path, normalpath.Relative) && normalpath.ContainsPath(roots[b], path, normalpath.Relative))
+//@   loop 0 invariant single-is-unique: len(matchingRoots) <= $i && (len(matchingRoots) == 1 ==> (exists j int :: 0 <= j && j < $i && matchingRoots[0] == roots[j] && normalpath.ContainsPath(roots[j], path, normalpath.Relative) && (forall k int :: 0 <= k && k < $i && k != j ==> !normalpath.ContainsPath(roots[k], path, normalpath.Relative))))
+//
+// newModuleTargeting: the targeting of ONE module of the workspace, from the bucket-level --path / --exclude-path values
+// (paths relative to the workspace bucket). Documented on the struct: isTargetModule is "false if this was not specified
+// as a target module by the caller. Also false if there were TargetPaths ... but these paths did not match anything in
+// the module"; the module paths are "relative to the actual moduleDirPath and the roots".
+//  * a module the caller does not consider a target gets no targeting at all;
+//  * without --path values a tentative target IS a target;
+//  * with --path values it is a target iff some value lies STRICTLY inside the module directory; such a value is re-based
+//    onto the module directory (and its root), values outside the module are not applied to it;
+//  * a value equal to the module directory is an error (documented user error: give the module as input instead);
+//  * --exclude-path values are applied only to target modules, re-based the same way.
+//@ func newModuleTargeting(moduleDirPath, roots, bucketTargeting, config, isTentativelyTargetModule) (r, err)
+//@   property C10
+//@   use a2_rel-not-dot
+//@   requires validRel(moduleDirPath) && config != nil
+//@   requires forall j int :: 0 <= j && j < len(roots) ==> validRel(roots[j])
+//@   requires forall j int :: 0 <= j && j < len(bucketTargeting.TargetPaths()) ==> validRel(bucketTargeting.TargetPaths()[j]) && bucketTargeting.TargetPaths()[j] != "."
+//@   requires forall j int :: 0 <= j && j < len(bucketTargeting.TargetExcludePaths()) ==> validRel(bucketTargeting.TargetExcludePaths()[j]) && bucketTargeting.TargetExcludePaths()[j] != "."
+//@   ensures fresh: err == nil ==> r != nil && !old(allocated(r)) && allocated(r) && r.moduleDirPath == moduleDirPath
+//@   ensures failure-gives-nil: err != nil ==> r == nil
+//@   ensures non-target-gets-no-targeting: !isTentativelyTargetModule ==> err == nil && !r.isTargetModule && len(r.moduleTargetPaths) == 0 && len(r.moduleTargetExcludePaths) == 0 && r.moduleProtoFileTargetPath == ""
+//@   ensures no-paths-targets-whole-module: isTentativelyTargetModule && len(bucketTargeting.TargetPaths()) == 0 && config.protoFileTargetPath == "" && err == nil ==> r.isTargetModule && len(r.moduleTargetPaths) == 0
+//@   ensures path-equal-to-module-dir-rejected: isTentativelyTargetModule && config.protoFileTargetPath == "" && (exists j int :: 0 <= j && j < len(bucketTargeting.TargetPaths()) && bucketTargeting.TargetPaths()[j] == moduleDirPath) ==> err != nil
+//@   ensures target-iff-some-path-inside: isTentativelyTargetModule && config.protoFileTargetPath == "" && len(bucketTargeting.TargetPaths()) > 0 && err == nil ==> (r.isTargetModule <==> (exists j int :: 0 <= j && j < len(bucketTargeting.TargetPaths()) && a2_strictIn(moduleDirPath, bucketTargeting.TargetPaths()[j])))
+//@   ensures module-paths-only-from-inside: isTentativelyTargetModule && config.protoFileTargetPath == "" && err == nil ==> (forall k int :: 0 <= k && k < len(r.moduleTargetPaths) ==> (exists j int, q int :: 0 <= j && j < len(bucketTargeting.TargetPaths()) && 0 <= q && q < len(roots) && a2_strictIn(moduleDirPath, bucketTargeting.TargetPaths()[j]) && a2_strictIn(roots[q], e_relTo(moduleDirPath, bucketTargeting.TargetPaths()[j])) && r.moduleTargetPaths[k] == a2_rebase(roots[q], moduleDirPath, bucketTargeting.TargetPaths()[j])))
+//@   ensures every-inside-path-rebased: isTentativelyTargetModule && config.protoFileTargetPath == "" && err == nil ==> (forall j int :: 0 <= j && j < len(bucketTargeting.TargetPaths()) && a2_strictIn(moduleDirPath, bucketTargeting.TargetPaths()[j]) ==> (exists k int, q int :: 0 <= k && k < len(r.moduleTargetPaths) && 0 <= q && q < len(roots) && a2_strictIn(roots[q], e_relTo(moduleDirPath, bucketTargeting.TargetPaths()[j])) && r.moduleTargetPaths[k] == a2_rebase(roots[q], moduleDirPath, bucketTargeting.TargetPaths()[j])))
+//@   ensures excludes-only-for-targets: err == nil && !r.isTargetModule ==> len(r.moduleTargetExcludePaths) == 0
+//@   ensures paths-only-for-targets: err == nil && !r.isTargetModule ==> len(r.moduleTargetPaths) == 0 && r.moduleProtoFileTargetPath == ""
+//@   ensures module-excludes-only-from-inside: isTentativelyTargetModule && config.protoFileTargetPath == "" && err == nil ==> (forall k int :: 0 <= k && k < len(r.moduleTargetExcludePaths) ==> (exists j int, q int :: 0 <= j && j < len(bucketTargeting.TargetExcludePaths()) && 0 <= q && q < len(roots) && a2_strictIn(moduleDirPath, bucketTargeting.TargetExcludePaths()[j]) && a2_strictIn(roots[q], e_relTo(moduleDirPath, bucketTargeting.TargetExcludePaths()[j])) && r.moduleTargetExcludePaths[k] == a2_rebase(roots[q], moduleDirPath, bucketTargeting.TargetExcludePaths()[j])))
+//@   ensures every-inside-exclude-rebased: isTentativelyTargetModule && config.protoFileTargetPath == "" && err == nil && r.isTargetModule ==> (forall j int :: 0 <= j && j < len(bucketTargeting.TargetExcludePaths()) && a2_strictIn(moduleDirPath, bucketTargeting.TargetExcludePaths()[j]) ==> (exists k int, q int :: 0 <= k && k < len(r.moduleTargetExcludePaths) && 0 <= q && q < len(roots) && a2_strictIn(roots[q], e_relTo(moduleDirPath, bucketTargeting.TargetExcludePaths()[j])) && r.moduleTargetExcludePaths[k] == a2_rebase(roots[q], moduleDirPath, bucketTargeting.TargetExcludePaths()[j])))
+//@   ensures exclude-equal-to-module-dir-rejected: isTentativelyTargetModule && config.protoFileTargetPath == "" && (len(bucketTargeting.TargetPaths()) == 0 || (exists j int :: 0 <= j && j < len(bucketTargeting.TargetPaths()) && a2_strictIn(moduleDirPath, bucketTargeting.TargetPaths()[j]))) && (exists j int :: 0 <= j && j < len(bucketTargeting.TargetExcludePaths()) && bucketTargeting.TargetExcludePaths()[j] == moduleDirPath) ==> err != nil
+//@   loop 0 invariant target-iff-path-inside: isTargetModule <==> (len(bucketTargeting.TargetPaths()) == 0 || (exists j int :: 0 <= j && j < $i && a2_strictIn(moduleDirPath, bucketTargeting.TargetPaths()[j])))
+//@   loop 0 invariant no-path-equals-module-dir: forall j int :: 0 <= j && j < $i ==> bucketTargeting.TargetPaths()[j] != moduleDirPath
+//@   loop 0 invariant paths-from-inside: forall k int :: 0 <= k && k < len(moduleTargetPaths) ==> (exists j int :: 0 <= j && j < $i && a2_strictIn(moduleDirPath, bucketTargeting.TargetPaths()[j]) && moduleTargetPaths[k] == e_relTo(moduleDirPath, bucketTargeting.TargetPaths()[j])) && validRel(moduleTargetPaths[k]) && moduleTargetPaths[k] != "."
+//@   loop 0 invariant inside-paths-kept: forall j int :: 0 <= j && j < $i && a2_strictIn(moduleDirPath, bucketTargeting.TargetPaths()[j]) ==> (exists k int :: 0 <= k && k < len(moduleTargetPaths) && moduleTargetPaths[k] == e_relTo(moduleDirPath, bucketTargeting.TargetPaths()[j]))
+//@   loop 0 invariant no-excludes-yet: len(moduleTargetExcludePaths) == 0
+//@   loop 0 invariant non-target-no-paths: !isTargetModule ==> len(moduleTargetPaths) == 0
+//@   loop 1 invariant no-exclude-equals-module-dir: forall j int :: 0 <= j && j < $i ==> bucketTargeting.TargetExcludePaths()[j] != moduleDirPath
+//@   loop 1 invariant excludes-from-inside: forall k int :: 0 <= k && k < len(moduleTargetExcludePaths) ==> (exists j int :: 0 <= j && j < $i && a2_strictIn(moduleDirPath, bucketTargeting.TargetExcludePaths()[j]) && moduleTargetExcludePaths[k] == e_relTo(moduleDirPath, bucketTargeting.TargetExcludePaths()[j])) && validRel(moduleTargetExcludePaths[k]) && moduleTargetExcludePaths[k] != "."
+//@   loop 1 invariant inside-excludes-kept: forall j int :: 0 <= j && j < $i && a2_strictIn(moduleDirPath, bucketTargeting.TargetExcludePaths()[j]) ==> (exists k int :: 0 <= k && k < len(moduleTargetExcludePaths) && moduleTargetExcludePaths[k] == e_relTo(moduleDirPath, bucketTargeting.TargetExcludePaths()[j]))
+//@   closure 0 requires validRel(moduleTargetPath) && moduleTargetPath != "."
+//@   closure 0 ensures r == first(applyRootsToTargetPath(roots, moduleTargetPath, normalpath.Relative)) && err == second(applyRootsToTargetPath(roots, moduleTargetPath, normalpath.Relative))
+//@   closure 1 requires validRel(moduleTargetExcludePath) && moduleTargetExcludePath != "."
+//@   closure 1 ensures r == first(applyRootsToTargetPath(roots, moduleTargetExcludePath, normalpath.Relative)) && err == second(applyRootsToTargetPath(roots, moduleTargetExcludePath, normalpath.Relative))
+//
+// validateBucketTargeting: a nil error means no --path / --exclude-path value equals the input directory, and no
+// --exclude-path value equals or contains a --path value (that would exclude everything the path asks for); each of
+// these situations is reported. With a single-file target exactly one path and no excludes are allowed.
+//@ func validateBucketTargeting(bucketTargeting, protoFilePath) (err)
+//@   property C10
+//@   reveal ancOrSelf
+//@   requires forall j int :: 0 <= j && j < len(bucketTargeting.TargetPaths()) ==> validRel(bucketTargeting.TargetPaths()[j])
+//@   requires forall j int :: 0 <= j && j < len(bucketTargeting.TargetExcludePaths()) ==> validRel(bucketTargeting.TargetExcludePaths()[j])
+//@   ensures path-equal-to-input-rejected: (exists j int :: 0 <= j && j < len(bucketTargeting.TargetPaths()) && bucketTargeting.TargetPaths()[j] == bucketTargeting.SubDirPath()) ==> err != nil
+//@   ensures exclude-equal-to-input-rejected: (exists j int :: 0 <= j && j < len(bucketTargeting.TargetExcludePaths()) && bucketTargeting.TargetExcludePaths()[j] == bucketTargeting.SubDirPath()) ==> err != nil
+//@   ensures exclude-covering-path-rejected: (exists j int, k int :: 0 <= j && j < len(bucketTargeting.TargetPaths()) && 0 <= k && k < len(bucketTargeting.TargetExcludePaths()) && ancOrSelf(bucketTargeting.TargetExcludePaths()[k], bucketTargeting.TargetPaths()[j])) ==> err != nil
+//@   ensures file-target-needs-one-path-no-excludes: protoFilePath != "" && (len(bucketTargeting.TargetPaths()) != 1 || len(bucketTargeting.TargetExcludePaths()) > 0) ==> err != nil
+//@   ensures otherwise-accepted: !(protoFilePath != "" && (len(bucketTargeting.TargetPaths()) != 1 || len(bucketTargeting.TargetExcludePaths()) > 0)) && (forall j int :: 0 <= j && j < len(bucketTargeting.TargetPaths()) ==> bucketTargeting.TargetPaths()[j] != bucketTargeting.SubDirPath()) && (forall j int :: 0 <= j && j < len(bucketTargeting.TargetExcludePaths()) ==> bucketTargeting.TargetExcludePaths()[j] != bucketTargeting.SubDirPath()) && (forall j int, k int :: 0 <= j && j < len(bucketTargeting.TargetPaths()) && 0 <= k && k < len(bucketTargeting.TargetExcludePaths()) ==> !ancOrSelf(bucketTargeting.TargetExcludePaths()[k], bucketTargeting.TargetPaths()[j])) ==> err == nil
+//@   loop 0 invariant forall j int :: 0 <= j && j < $i ==> bucketTargeting.TargetPaths()[j] != bucketTargeting.SubDirPath() && (forall k int :: 0 <= k && k < len(bucketTargeting.TargetExcludePaths()) ==> !ancOrSelf(bucketTargeting.TargetExcludePaths()[k], bucketTargeting.TargetPaths()[j]))
+//@   loop 1 invariant forall k int :: 0 <= k && k < $i ==> !ancOrSelf(bucketTargeting.TargetExcludePaths()[k], targetPath)
+//@   loop 2 invariant forall j int :: 0 <= j && j < $i ==> bucketTargeting.TargetExcludePaths()[j] != bucketTargeting.SubDirPath()
+//
+// Bucket IDs of the modules of a v2 workspace: the module directory, made unique by a running "-N" suffix when a
+// directory occurs more than once; one ID per module, in module order.
+//@ func bucketIDsForDirPaths(moduleDirPaths, firstIDHasSuffix) (r)
+//@   property C10
+//@   ensures one-per-module: len(r) == len(moduleDirPaths)
+//@   ensures unsuffixed-first: !firstIDHasSuffix ==> (forall i int :: 0 <= i && i < len(moduleDirPaths) && (forall j int :: 0 <= j && j < i ==> moduleDirPaths[j] != moduleDirPaths[i]) ==> r[i] == moduleDirPaths[i])
+//@   loop 0 invariant len(bucketIDs) == $i && dirPathToRunningCount != nil
+//@   loop 0 invariant forall p string :: p in dirPathToRunningCount ==> dirPathToRunningCount[p] >= 1 && (exists j int :: 0 <= j && j < $i && moduleDirPaths[j] == p)
+//@   loop 0 invariant forall j int :: 0 <= j && j < $i ==> moduleDirPaths[j] in dirPathToRunningCount
+//@   loop 0 invariant !firstIDHasSuffix ==> (forall i int :: 0 <= i && i < $i && (forall j int :: 0 <= j && j < i ==> moduleDirPaths[j] != moduleDirPaths[i]) ==> bucketIDs[i] == moduleDirPaths[i])
+//
+// getMappedModuleBucketAndModuleTargeting: the bucket of one module (its roots, filtered, plus doc/licence files) and
+// its targeting. The targeting is newModuleTargeting's for this module directory and the roots of its configuration.
+//@ func getMappedModuleBucketAndModuleTargeting(ctx, config, workspaceBucket, bucketTargeting, moduleDirPath, moduleConfig, isTargetModule, useWorkspaceLicenseDocIfNotFoundAtModule) (r0, r1, err)
+//@   property C10
+//@   modifies ghost.fail, ghost.sinkPaths, ghost.sinkBuckets, ghost.d2_objects
+//@   reveal a2_somePathIn
+//@   requires validRel(moduleDirPath) && config != nil
+//@   requires forall k string :: k in moduleConfig.RootToExcludes() ==> validRel(k)
+//@   requires forall j int :: 0 <= j && j < len(bucketTargeting.TargetPaths()) ==> validRel(bucketTargeting.TargetPaths()[j]) && bucketTargeting.TargetPaths()[j] != "."
+//@   requires forall j int :: 0 <= j && j < len(bucketTargeting.TargetExcludePaths()) ==> validRel(bucketTargeting.TargetExcludePaths()[j]) && bucketTargeting.TargetExcludePaths()[j] != "."
+//@   ensures both-or-error: err == nil ==> r0 != nil && r1 != nil && !old(allocated(r1)) && allocated(r1) && r1.moduleDirPath == moduleDirPath
+//@   ensures non-target-gets-no-targeting: !isTargetModule && err == nil ==> !r1.isTargetModule && len(r1.moduleTargetPaths) == 0 && len(r1.moduleTargetExcludePaths) == 0 && r1.moduleProtoFileTargetPath == ""
+//@   ensures target-decision: isTargetModule && config.protoFileTargetPath == "" && err == nil ==> (r1.isTargetModule <==> (len(bucketTargeting.TargetPaths()) == 0 || a2_somePathIn(moduleDirPath, bucketTargeting.TargetPaths())))
+//@   ensures path-equal-to-module-dir-rejected: isTargetModule && config.protoFileTargetPath == "" && (exists j int :: 0 <= j && j < len(bucketTargeting.TargetPaths()) && bucketTargeting.TargetPaths()[j] == moduleDirPath) ==> err != nil
+//@   ensures module-paths-only-from-inside: isTargetModule && config.protoFileTargetPath == "" && err == nil ==> (forall k int :: 0 <= k && k < len(r1.moduleTargetPaths) ==> (exists j int, root string :: 0 <= j && j < len(bucketTargeting.TargetPaths()) && (root in moduleConfig.RootToExcludes()) && a2_strictIn(moduleDirPath, bucketTargeting.TargetPaths()[j]) && a2_strictIn(root, e_relTo(moduleDirPath, bucketTargeting.TargetPaths()[j])) && r1.moduleTargetPaths[k] == a2_rebase(root, moduleDirPath, bucketTargeting.TargetPaths()[j])))
+//@   ensures every-inside-path-rebased: isTargetModule && config.protoFileTargetPath == "" && err == nil ==> (forall j int :: 0 <= j && j < len(bucketTargeting.TargetPaths()) && a2_strictIn(moduleDirPath, bucketTargeting.TargetPaths()[j]) ==> (exists k int, root string :: 0 <= k && k < len(r1.moduleTargetPaths) && (root in moduleConfig.RootToExcludes()) && a2_strictIn(root, e_relTo(moduleDirPath, bucketTargeting.TargetPaths()[j])) && r1.moduleTargetPaths[k] == a2_rebase(root, moduleDirPath, bucketTargeting.TargetPaths()[j])))
+//@   ensures excludes-only-for-targets: err == nil && !r1.isTargetModule ==> len(r1.moduleTargetExcludePaths) == 0 && len(r1.moduleTargetPaths) == 0
+//@   ensures module-excludes-only-from-inside: isTargetModule && config.protoFileTargetPath == "" && err == nil ==> (forall k int :: 0 <= k && k < len(r1.moduleTargetExcludePaths) ==> (exists j int, root string :: 0 <= j && j < len(bucketTargeting.TargetExcludePaths()) && (root in moduleConfig.RootToExcludes()) && a2_strictIn(moduleDirPath, bucketTargeting.TargetExcludePaths()[j]) && a2_strictIn(root, e_relTo(moduleDirPath, bucketTargeting.TargetExcludePaths()[j])) && r1.moduleTargetExcludePaths[k] == a2_rebase(root, moduleDirPath, bucketTargeting.TargetExcludePaths()[j])))
+//@   loop 0 invariant true
+//@   loop 1 invariant true
+//@   loop 2 invariant true
+//
+// checkForOverlap is only reached when no module lies in the input directory: it always reports an error.
+//@ func checkForOverlap(ctx, bucket, inputPath, moduleDirPaths) (err)
+//@   property C10
+//@   modifies ghost.fail, ghost.sinkPaths, ghost.sinkBuckets, ghost.d2_objects
+//@   use a2_dot-contains-all
+// (reached only when no module directory lies in the input directory; in particular the input is not the bucket root)
+//@   requires validRel(inputPath) && (len(moduleDirPaths) > 0 ==> !ancOrSelf(inputPath, moduleDirPaths[0]))
+//@   requires forall j int :: 0 <= j && j < len(moduleDirPaths) ==> validRel(moduleDirPaths[j])
+//@   ensures always-an-error: err != nil
+//@   loop 0 invariant true
+//
+// slicesext.Duplicates: the elements reported occur in the input.
+//@ func github.com/bufbuild/buf/private/pkg/slicesext.Duplicates(s) (r)
+//@   property C10
+//@   ensures members: forall j int :: 0 <= j && j < len(r) ==> (exists i int :: 0 <= i && i < len(s) && s[i] == r[j])
+//@   loop 0 invariant count != nil && (forall j int :: 0 <= j && j < len(duplicates) ==> (exists i int :: 0 <= i && i < $i && s[i] == duplicates[j]))
+//@ func bucketIDsForModuleConfigsV2(moduleConfigs) (r)
+//@   property C10
+//@   ensures len(r) == len(moduleConfigs)
+//
+// v2WorkspaceTargeting (modules = the module configs of the v2 buf.yaml): a module is a TENTATIVE target iff its
+// directory lies in (or is) the input directory (or a single .proto file is targeted); it is a TARGET iff, in addition,
+// no --path is given or some --path lies strictly inside its directory (a2_isTargetModule). One record per module, in
+// configuration order, carrying the module directory, its bucket ID and that decision; non-target modules carry no
+// path filters. An input directory that contains no module, or a --path set that hits no module, is an error - never
+// an empty workspace.
+//@ func v2WorkspaceTargeting(ctx, config, bucket, bucketTargeting, bufYAMLFile, useWorkspaceLicenseDocIfNotFoundAtModule) (r, err)
+//@   property C10
+//@   modifies ghost.fail, ghost.sinkPaths, ghost.sinkBuckets, ghost.d2_objects
+//@   requires config != nil && validRel(bucketTargeting.SubDirPath())
+//@   requires forall j int :: 0 <= j && j < len(bufYAMLFile.ModuleConfigs()) ==> validRel(bufYAMLFile.ModuleConfigs()[j].DirPath()) && (forall k string :: k in bufYAMLFile.ModuleConfigs()[j].RootToExcludes() ==> validRel(k))
+//@   requires forall j int :: 0 <= j && j < len(bucketTargeting.TargetPaths()) ==> validRel(bucketTargeting.TargetPaths()[j]) && bucketTargeting.TargetPaths()[j] != "."
+//@   requires forall j int :: 0 <= j && j < len(bucketTargeting.TargetExcludePaths()) ==> validRel(bucketTargeting.TargetExcludePaths()[j]) && bucketTargeting.TargetExcludePaths()[j] != "."
+//@   ensures v2-shape: err == nil ==> r != nil && r.v2 != nil && r.v1 == nil && r.v2.bufYAMLFile == bufYAMLFile && len(r.v2.moduleBucketsAndTargeting) == len(bufYAMLFile.ModuleConfigs())
+//@   ensures failure-gives-nil: err != nil ==> r == nil
+//@   ensures one-record-per-module: err == nil ==> (forall j int :: 0 <= j && j < len(bufYAMLFile.ModuleConfigs()) ==> r.v2.moduleBucketsAndTargeting[j] != nil && r.v2.moduleBucketsAndTargeting[j].moduleTargeting != nil && r.v2.moduleBucketsAndTargeting[j].moduleTargeting.moduleDirPath == bufYAMLFile.ModuleConfigs()[j].DirPath() && r.v2.moduleBucketsAndTargeting[j].bucket != nil)
+//@   ensures target-decision-per-module: err == nil && config.protoFileTargetPath == "" ==> (forall j int :: 0 <= j && j < len(bufYAMLFile.ModuleConfigs()) ==> (r.v2.moduleBucketsAndTargeting[j].moduleTargeting.isTargetModule <==> a2_isTargetModule(bucketTargeting.SubDirPath(), bufYAMLFile.ModuleConfigs()[j].DirPath(), bucketTargeting.TargetPaths())))
+//@   ensures non-targets-carry-no-paths: err == nil ==> (forall j int :: 0 <= j && j < len(bufYAMLFile.ModuleConfigs()) && !r.v2.moduleBucketsAndTargeting[j].moduleTargeting.isTargetModule ==> len(r.v2.moduleBucketsAndTargeting[j].moduleTargeting.moduleTargetPaths) == 0 && len(r.v2.moduleBucketsAndTargeting[j].moduleTargeting.moduleTargetExcludePaths) == 0)
+//@   ensures no-module-in-input-is-error: config.protoFileTargetPath == "" && (forall j int :: 0 <= j && j < len(bufYAMLFile.ModuleConfigs()) ==> !ancOrSelf(bucketTargeting.SubDirPath(), bufYAMLFile.ModuleConfigs()[j].DirPath())) ==> err != nil
+//@   ensures no-target-module-is-error: config.protoFileTargetPath == "" && (forall j int :: 0 <= j && j < len(bufYAMLFile.ModuleConfigs()) ==> !a2_isTargetModule(bucketTargeting.SubDirPath(), bufYAMLFile.ModuleConfigs()[j].DirPath(), bucketTargeting.TargetPaths())) ==> err != nil
+//@   ensures success-has-a-target: config.protoFileTargetPath == "" && err == nil ==> (exists j int :: 0 <= j && j < len(bufYAMLFile.ModuleConfigs()) && a2_isTargetModule(bucketTargeting.SubDirPath(), bufYAMLFile.ModuleConfigs()[j].DirPath(), bucketTargeting.TargetPaths()))
+//@   ensures config-untouched: config.protoFileTargetPath == old(config.protoFileTargetPath)
+//@   loop 0 invariant setup: moduleConfigs == bufYAMLFile.ModuleConfigs() && len(bucketIDsForModuleConfigs) == len(moduleConfigs) && bucketIDToModuleConfig != nil
+//@   loop 0 invariant dirs-collected: len(moduleBucketsAndTargeting) == $i && len(moduleDirPaths) == $i && (forall j int :: 0 <= j && j < $i ==> moduleDirPaths[j] == moduleConfigs[j].DirPath())
+//@   loop 0 invariant tentative-seen-iff: config.protoFileTargetPath == "" ==> (hadIsTentativelyTargetModule <==> (exists j int :: 0 <= j && j < $i && ancOrSelf(bucketTargeting.SubDirPath(), moduleConfigs[j].DirPath())))
+//@   loop 0 invariant target-seen-iff: config.protoFileTargetPath == "" ==> (hadIsTargetModule <==> (exists j int :: 0 <= j && j < $i && a2_isTargetModule(bucketTargeting.SubDirPath(), moduleConfigs[j].DirPath(), bucketTargeting.TargetPaths())))
+//@   loop 0 invariant file-target-tentative: config.protoFileTargetPath != "" && $i > 0 ==> hadIsTentativelyTargetModule
+//@   loop 0 invariant records: forall j int :: 0 <= j && j < $i ==> moduleBucketsAndTargeting[j] != nil && allocated(moduleBucketsAndTargeting[j]) && moduleBucketsAndTargeting[j].moduleTargeting != nil && allocated(moduleBucketsAndTargeting[j].moduleTargeting) && moduleBucketsAndTargeting[j].moduleTargeting.moduleDirPath == moduleConfigs[j].DirPath() && moduleBucketsAndTargeting[j].bucket != nil && moduleBucketsAndTargeting[j].bucketID == bucketIDsForModuleConfigs[j]
+//@   loop 0 invariant decisions: config.protoFileTargetPath == "" ==> (forall j int :: 0 <= j && j < $i ==> (moduleBucketsAndTargeting[j].moduleTargeting.isTargetModule <==> a2_isTargetModule(bucketTargeting.SubDirPath(), moduleConfigs[j].DirPath(), bucketTargeting.TargetPaths())))
+//@   loop 0 invariant non-targets-no-paths: forall j int :: 0 <= j && j < $i && !moduleBucketsAndTargeting[j].moduleTargeting.isTargetModule ==> len(moduleBucketsAndTargeting[j].moduleTargeting.moduleTargetPaths) == 0 && len(moduleBucketsAndTargeting[j].moduleTargeting.moduleTargetExcludePaths) == 0
+//@   assert before "isTentativelyTargetModule := normalpath.EqualsOrContainsPath(" module-dir-valid: validRel(moduleDirPath) && moduleDirPath == moduleConfigs[i].DirPath() && (forall k string :: k in moduleConfig.RootToExcludes() ==> validRel(k))
+//@   assert before "moduleBucketsAndTargeting = append(" tentative-iff-in-input: isTentativelyTargetModule <==> (config.protoFileTargetPath != "" || ancOrSelf(bucketTargeting.SubDirPath(), moduleDirPath))
+//@   assert before "moduleBucketsAndTargeting = append(" target-decision: config.protoFileTargetPath == "" ==> (moduleTargeting.isTargetModule <==> a2_isTargetModule(bucketTargeting.SubDirPath(), moduleDirPath, bucketTargeting.TargetPaths()))
+//
+// The configuration of one v1 module directory: the override file if given, else the buf.yaml found there, else the
+// default v1 configuration; only v1beta1 / v1 files with exactly one module configuration are accepted.
+//@ func getModuleConfigAndConfiguredDepModuleRefsV1Beta1OrV1(ctx, bucket, moduleDirPath, overrideBufYAMLFile) (r0, r1, err)
+//@   property C10
+//@   modifies ghost.fail, ghost.sinkPaths, ghost.sinkBuckets
+//@   ensures override-used: overrideBufYAMLFile != nil && err == nil ==> len(overrideBufYAMLFile.ModuleConfigs()) == 1 && r0 == overrideBufYAMLFile.ModuleConfigs()[0]
+//@   ensures v2-file-rejected: overrideBufYAMLFile != nil && overrideBufYAMLFile.FileVersion() != bufconfig.FileVersionV1Beta1 && overrideBufYAMLFile.FileVersion() != bufconfig.FileVersionV1 ==> err != nil
+//@   ensures failure-gives-nil: err != nil ==> r0 == nil
+//
+// v1WorkspaceTargeting (modules = the given directories: those of buf.work.yaml, or the single input directory): the
+// same decision as for v2 workspaces, per directory; the bucket ID of a v1 module is its directory.
+//@ func v1WorkspaceTargeting(ctx, config, bucket, bucketTargeting, moduleDirPaths, overrideBufYAMLFile) (r, err)
+//@   property C10
+//@   modifies ghost.fail, ghost.sinkPaths, ghost.sinkBuckets, ghost.d2_objects
+//@   use a2_module-config-paths-valid
+//@   requires config != nil && validRel(bucketTargeting.SubDirPath())
+//@   requires forall j int :: 0 <= j && j < len(moduleDirPaths) ==> validRel(moduleDirPaths[j])
+//@   requires forall j int :: 0 <= j && j < len(bucketTargeting.TargetPaths()) ==> validRel(bucketTargeting.TargetPaths()[j]) && bucketTargeting.TargetPaths()[j] != "."
+//@   requires forall j int :: 0 <= j && j < len(bucketTargeting.TargetExcludePaths()) ==> validRel(bucketTargeting.TargetExcludePaths()[j]) && bucketTargeting.TargetExcludePaths()[j] != "."
+//@   ensures v1-shape: err == nil ==> r != nil && r.v1 != nil && r.v2 == nil && len(r.v1.moduleBucketsAndTargeting) == len(moduleDirPaths)
+//@   ensures failure-gives-nil: err != nil ==> r == nil
+//@   ensures one-record-per-directory: err == nil ==> (forall j int :: 0 <= j && j < len(moduleDirPaths) ==> r.v1.moduleBucketsAndTargeting[j] != nil && r.v1.moduleBucketsAndTargeting[j].moduleTargeting != nil && r.v1.moduleBucketsAndTargeting[j].moduleTargeting.moduleDirPath == moduleDirPaths[j] && r.v1.moduleBucketsAndTargeting[j].bucketID == moduleDirPaths[j] && r.v1.moduleBucketsAndTargeting[j].bucket != nil)
+//@   ensures target-decision-per-module: err == nil && config.protoFileTargetPath == "" ==> (forall j int :: 0 <= j && j < len(moduleDirPaths) ==> (r.v1.moduleBucketsAndTargeting[j].moduleTargeting.isTargetModule <==> a2_isTargetModule(bucketTargeting.SubDirPath(), moduleDirPaths[j], bucketTargeting.TargetPaths())))
+//@   ensures non-targets-carry-no-paths: err == nil ==> (forall j int :: 0 <= j && j < len(moduleDirPaths) && !r.v1.moduleBucketsAndTargeting[j].moduleTargeting.isTargetModule ==> len(r.v1.moduleBucketsAndTargeting[j].moduleTargeting.moduleTargetPaths) == 0 && len(r.v1.moduleBucketsAndTargeting[j].moduleTargeting.moduleTargetExcludePaths) == 0)
+//@   ensures no-module-in-input-is-error: config.protoFileTargetPath == "" && (forall j int :: 0 <= j && j < len(moduleDirPaths) ==> !ancOrSelf(bucketTargeting.SubDirPath(), moduleDirPaths[j])) ==> err != nil
+//@   ensures no-target-module-is-error: config.protoFileTargetPath == "" && (forall j int :: 0 <= j && j < len(moduleDirPaths) ==> !a2_isTargetModule(bucketTargeting.SubDirPath(), moduleDirPaths[j], bucketTargeting.TargetPaths())) ==> err != nil
+//@   ensures success-has-a-target: config.protoFileTargetPath == "" && err == nil ==> (exists j int :: 0 <= j && j < len(moduleDirPaths) && a2_isTargetModule(bucketTargeting.SubDirPath(), moduleDirPaths[j], bucketTargeting.TargetPaths()))
+//@   loop 0 invariant setup: bucketIDToModuleConfig != nil && moduleFullNameStringToConfiguredDepModuleRefString != nil && len(moduleBucketsAndTargeting) == $i
+//@   loop 0 invariant tentative-seen-iff: config.protoFileTargetPath == "" ==> (hadIsTentativelyTargetModule <==> (exists j int :: 0 <= j && j < $i && ancOrSelf(bucketTargeting.SubDirPath(), moduleDirPaths[j])))
+//@   loop 0 invariant target-seen-iff: config.protoFileTargetPath == "" ==> (hadIsTargetModule <==> (exists j int :: 0 <= j && j < $i && a2_isTargetModule(bucketTargeting.SubDirPath(), moduleDirPaths[j], bucketTargeting.TargetPaths())))
+//@   loop 0 invariant file-target-tentative: config.protoFileTargetPath != "" && $i > 0 ==> hadIsTentativelyTargetModule
+//@   loop 0 invariant records: forall j int :: 0 <= j && j < $i ==> moduleBucketsAndTargeting[j] != nil && allocated(moduleBucketsAndTargeting[j]) && moduleBucketsAndTargeting[j].moduleTargeting != nil && allocated(moduleBucketsAndTargeting[j].moduleTargeting) && moduleBucketsAndTargeting[j].moduleTargeting.moduleDirPath == moduleDirPaths[j] && moduleBucketsAndTargeting[j].bucket != nil && moduleBucketsAndTargeting[j].bucketID == moduleDirPaths[j]
+//@   loop 0 invariant decisions: config.protoFileTargetPath == "" ==> (forall j int :: 0 <= j && j < $i ==> (moduleBucketsAndTargeting[j].moduleTargeting.isTargetModule <==> a2_isTargetModule(bucketTargeting.SubDirPath(), moduleDirPaths[j], bucketTargeting.TargetPaths())))
+//@   loop 0 invariant non-targets-no-paths: forall j int :: 0 <= j && j < $i && !moduleBucketsAndTargeting[j].moduleTargeting.isTargetModule ==> len(moduleBucketsAndTargeting[j].moduleTargeting.moduleTargetPaths) == 0 && len(moduleBucketsAndTargeting[j].moduleTargeting.moduleTargetExcludePaths) == 0
+//@   loop 1 invariant refs-map: moduleFullNameStringToConfiguredDepModuleRefString != nil
+//@   assert before "moduleBucketsAndTargeting = append(" tentative-iff-in-input: isTentativelyTargetModule <==> (config.protoFileTargetPath != "" || ancOrSelf(bucketTargeting.SubDirPath(), moduleDirPath))
+//@   assert before "moduleBucketsAndTargeting = append(" target-decision: config.protoFileTargetPath == "" ==> (moduleTargeting.isTargetModule <==> a2_isTargetModule(bucketTargeting.SubDirPath(), moduleDirPath, bucketTargeting.TargetPaths()))
+//
+// newWorkspaceTargeting: which kind of workspace governs the input.
+//  * invalid --path / --exclude-path combinations are refused first (validateBucketTargeting);
+//  * a v2 buf.yaml controlling the input: its module configurations are the modules (v2WorkspaceTargeting);
+//  * a buf.work.yaml controlling the input: its directories are the modules (v1WorkspaceTargeting), unless v1
+//    workspaces are disallowed for the operation: then only the module at the input directory;
+//  * a config override replaces the file found: v2 override -> its modules, v1 override -> the input directory.
+//@ func newWorkspaceTargeting(ctx, logger, config, bucket, bucketTargeting, overrideBufYAMLFile, ignoreAndDisallowV1BufWorkYAMLs) (r, err)
+//@   property C10
+//@   modifies heap, ghost.fail, ghost.sinkPaths, ghost.sinkBuckets, ghost.d2_objects
+//@   use a2_module-config-paths-valid, a2_module-dir-valid, a2_work-dirs-valid
+//@   requires config != nil && validRel(bucketTargeting.SubDirPath())
+//@   requires forall j int :: 0 <= j && j < len(bucketTargeting.TargetPaths()) ==> validRel(bucketTargeting.TargetPaths()[j]) && bucketTargeting.TargetPaths()[j] != "."
+//@   requires forall j int :: 0 <= j && j < len(bucketTargeting.TargetExcludePaths()) ==> validRel(bucketTargeting.TargetExcludePaths()[j]) && bucketTargeting.TargetExcludePaths()[j] != "."
+//@   ensures invalid-targeting-refused: (exists j int :: 0 <= j && j < len(bucketTargeting.TargetPaths()) && bucketTargeting.TargetPaths()[j] == bucketTargeting.SubDirPath()) || (exists j int, k int :: 0 <= j && j < len(bucketTargeting.TargetPaths()) && 0 <= k && k < len(bucketTargeting.TargetExcludePaths()) && ancOrSelf(bucketTargeting.TargetExcludePaths()[k], bucketTargeting.TargetPaths()[j])) ==> err != nil
+//@   ensures v2-controlling-workspace: err == nil && overrideBufYAMLFile == nil && bucketTargeting.ControllingWorkspace() != nil && bucketTargeting.ControllingWorkspace().BufYAMLFile() != nil ==> r != nil && r.v2 != nil && r.v1 == nil && r.v2.bufYAMLFile == bucketTargeting.ControllingWorkspace().BufYAMLFile() && len(r.v2.moduleBucketsAndTargeting) == len(bucketTargeting.ControllingWorkspace().BufYAMLFile().ModuleConfigs())
+//@   ensures v1-controlling-workspace: err == nil && overrideBufYAMLFile == nil && !ignoreAndDisallowV1BufWorkYAMLs && bucketTargeting.ControllingWorkspace() != nil && bucketTargeting.ControllingWorkspace().BufYAMLFile() == nil && bucketTargeting.ControllingWorkspace().BufWorkYAMLFile() != nil ==> r != nil && r.v1 != nil && r.v2 == nil && len(r.v1.moduleBucketsAndTargeting) == len(bucketTargeting.ControllingWorkspace().BufWorkYAMLFile().DirPaths())
+//@   ensures v1-workspace-disallowed-at-root: overrideBufYAMLFile == nil && ignoreAndDisallowV1BufWorkYAMLs && bucketTargeting.ControllingWorkspace() != nil && bucketTargeting.ControllingWorkspace().BufYAMLFile() == nil && bucketTargeting.ControllingWorkspace().BufWorkYAMLFile() != nil && bucketTargeting.SubDirPath() == "." ==> err != nil
+//@   ensures v1-workspace-ignored-single-module: err == nil && overrideBufYAMLFile == nil && ignoreAndDisallowV1BufWorkYAMLs && bucketTargeting.ControllingWorkspace() != nil && bucketTargeting.ControllingWorkspace().BufYAMLFile() == nil && bucketTargeting.ControllingWorkspace().BufWorkYAMLFile() != nil ==> r != nil && r.v1 != nil && len(r.v1.moduleBucketsAndTargeting) == 1
+//@   ensures v2-override: err == nil && overrideBufYAMLFile != nil && overrideBufYAMLFile.FileVersion() == bufconfig.FileVersionV2 ==> r != nil && r.v2 != nil && r.v2.bufYAMLFile == overrideBufYAMLFile
+//@   ensures v1-override-single-module: err == nil && overrideBufYAMLFile != nil && (overrideBufYAMLFile.FileVersion() == bufconfig.FileVersionV1 || overrideBufYAMLFile.FileVersion() == bufconfig.FileVersionV1Beta1) ==> r != nil && r.v1 != nil && len(r.v1.moduleBucketsAndTargeting) == 1
+//
+// ---- from the targeting to the module set (workspace_provider.go) ----
+// The ModuleSetBuilder is used through its interface; what is handed to it is recorded in ghost.a2_localAdds /
+// a2_remoteAdds / a2_remoteTargetAdded (see C10_workspace.spec). What the builder does with it is the verified
+// contract of (*moduleSetBuilder).Build: one module per OpaqueID, a local module is displaced only by a remote TARGET.
+//@ func github.com/bufbuild/buf/private/bufpkg/bufmodule.NewModuleSetBuilder(ctx, logger, moduleDataProvider, commitProvider) (r)
+//@   property C10
+//@   ensures r != nil
+//@ func getLocalModuleDescription(pathDescription, moduleConfig) (r)
+//@   property C10
+//@   closure 0 ensures r == normalpath.Join(moduleDirPath, relInclude)
+//@   closure 1 ensures r == normalpath.Join(moduleDirPath, relInclude)
+//@ func newWorkspace(moduleSet, opaqueIDToLintConfig, opaqueIDToBreakingConfig, pluginConfigs, remotePluginKeys, configuredDepModuleRefs, isV2) (r)
+//@   property C10
+//@   ensures r != nil && !old(allocated(r)) && r.ModuleSet == moduleSet && r.isV2 == isV2
+//@ func (w *workspaceProvider) getWorkspaceForBucketModuleSet(moduleSet, bucketIDToModuleConfig, pluginConfigs, remotePluginKeys, configuredDepModuleRefs, isV2) (r, err)
+//@   property C10
+//@   ensures workspace-over-this-module-set: err == nil ==> r != nil && r.ModuleSet == moduleSet && r.isV2 == isV2
+//@   ensures local-module-without-config-rejected: (exists j int :: 0 <= j && j < len(moduleSet.Modules()) && moduleSet.Modules()[j].BucketID() != "" && !(moduleSet.Modules()[j].BucketID() in bucketIDToModuleConfig)) ==> err != nil
+//@   loop 0 invariant opaqueIDToLintConfig != nil && opaqueIDToBreakingConfig != nil
+//@   loop 0 invariant forall j int :: 0 <= j && j < $i && moduleSet.Modules()[j].BucketID() != "" ==> (moduleSet.Modules()[j].BucketID() in bucketIDToModuleConfig)
+//
+// v2 workspace -> builder: every module pinned in the workspace's buf.lock is added as a remote NON-TARGET (never a
+// target: so it can never displace a local module, Build#assert[local-over-pinned]); every module of the workspace
+// targeting is added as a LOCAL module under its bucket ID with exactly its target decision; a v1 buf.lock next to a v2
+// buf.yaml is an error.
+//@ func (w *workspaceProvider) getWorkspaceForBucketBufYAMLV2(ctx, bucket, v2Targeting) (r, err)
+//@   property C10
+//@   modifies ghost.a2_localAdds, ghost.a2_remoteAdds, ghost.a2_remoteTargetAdded, ghost.fail, ghost.sinkPaths, ghost.sinkBuckets
+//@   requires v2Targeting != nil
+//@   requires forall j int :: 0 <= j && j < len(v2Targeting.moduleBucketsAndTargeting) ==> v2Targeting.moduleBucketsAndTargeting[j] != nil && v2Targeting.moduleBucketsAndTargeting[j].moduleTargeting != nil
+//@   requires distinct-bucket-ids: forall a int, b int :: 0 <= a && a < b && b < len(v2Targeting.moduleBucketsAndTargeting) ==> v2Targeting.moduleBucketsAndTargeting[a].bucketID != v2Targeting.moduleBucketsAndTargeting[b].bucketID
+//@   ensures pinned-modules-never-targets: ghost.a2_remoteTargetAdded == old(ghost.a2_remoteTargetAdded)
+//@   ensures every-workspace-module-added-local-with-its-decision: err == nil ==> (forall j int :: 0 <= j && j < len(v2Targeting.moduleBucketsAndTargeting) ==> (v2Targeting.moduleBucketsAndTargeting[j].bucketID in ghost.a2_localAdds) && ghost.a2_localAdds[v2Targeting.moduleBucketsAndTargeting[j].bucketID] == v2Targeting.moduleBucketsAndTargeting[j].moduleTargeting.isTargetModule)
+//@   ensures only-workspace-modules-added-local: forall id string :: (id in ghost.a2_localAdds) && !(id in old(ghost.a2_localAdds)) ==> (exists j int :: 0 <= j && j < len(v2Targeting.moduleBucketsAndTargeting) && v2Targeting.moduleBucketsAndTargeting[j].bucketID == id)
+//@   loop 0 invariant pinned-never-target: ghost.a2_remoteTargetAdded == old(ghost.a2_remoteTargetAdded) && ghost.a2_localAdds == old(ghost.a2_localAdds)
+//@   loop 0 invariant pinned-keys-added: forall j int :: 0 <= j && j < $i ==> bufLockFile.DepModuleKeys()[j] in ghost.a2_remoteAdds
+//@   loop 1 invariant no-remote-target: seenModuleDescriptions != nil && ghost.a2_remoteTargetAdded == old(ghost.a2_remoteTargetAdded)
+//@   loop 1 invariant added-local-with-decision: forall j int :: 0 <= j && j < $i ==> (v2Targeting.moduleBucketsAndTargeting[j].bucketID in ghost.a2_localAdds) && ghost.a2_localAdds[v2Targeting.moduleBucketsAndTargeting[j].bucketID] == v2Targeting.moduleBucketsAndTargeting[j].moduleTargeting.isTargetModule
+//@   loop 1 invariant only-workspace-modules: forall id string :: (id in ghost.a2_localAdds) && !(id in old(ghost.a2_localAdds)) ==> (exists j int :: 0 <= j && j < $i && v2Targeting.moduleBucketsAndTargeting[j].bucketID == id)
+//@   assert before "remotePluginKeys = bufLockFile.RemotePluginKeys()" every-pinned-key-added: forall j int :: 0 <= j && j < len(bufLockFile.DepModuleKeys()) ==> bufLockFile.DepModuleKeys()[j] in ghost.a2_remoteAdds
+//
+// v1 workspace -> builder: the same, with one buf.lock per module directory: every key pinned in ANY of them is added
+// as a remote NON-TARGET; every directory of the targeting is added as a LOCAL module (bucket ID = directory) with its
+// target decision; a v2 buf.lock in a v1 module is an error.
+//@ func (w *workspaceProvider) getWorkspaceForBucketAndModuleDirPathsV1Beta1OrV1(ctx, bucket, v1WorkspaceTargeting) (r, err)
+//@   property C10
+//@   modifies ghost.a2_localAdds, ghost.a2_remoteAdds, ghost.a2_remoteTargetAdded, ghost.fail, ghost.sinkPaths, ghost.sinkBuckets
+//@   requires v1WorkspaceTargeting != nil
+//@   requires forall j int :: 0 <= j && j < len(v1WorkspaceTargeting.moduleBucketsAndTargeting) ==> v1WorkspaceTargeting.moduleBucketsAndTargeting[j] != nil && v1WorkspaceTargeting.moduleBucketsAndTargeting[j].moduleTargeting != nil
+//@   requires distinct-bucket-ids: forall a int, b int :: 0 <= a && a < b && b < len(v1WorkspaceTargeting.moduleBucketsAndTargeting) ==> v1WorkspaceTargeting.moduleBucketsAndTargeting[a].bucketID != v1WorkspaceTargeting.moduleBucketsAndTargeting[b].bucketID
+//@   ensures pinned-modules-never-targets: ghost.a2_remoteTargetAdded == old(ghost.a2_remoteTargetAdded)
+//@   ensures every-workspace-module-added-local-with-its-decision: err == nil ==> (forall j int :: 0 <= j && j < len(v1WorkspaceTargeting.moduleBucketsAndTargeting) ==> (v1WorkspaceTargeting.moduleBucketsAndTargeting[j].bucketID in ghost.a2_localAdds) && ghost.a2_localAdds[v1WorkspaceTargeting.moduleBucketsAndTargeting[j].bucketID] == v1WorkspaceTargeting.moduleBucketsAndTargeting[j].moduleTargeting.isTargetModule)
+//@   ensures only-workspace-modules-added-local: forall id string :: (id in ghost.a2_localAdds) && !(id in old(ghost.a2_localAdds)) ==> (exists j int :: 0 <= j && j < len(v1WorkspaceTargeting.moduleBucketsAndTargeting) && v1WorkspaceTargeting.moduleBucketsAndTargeting[j].bucketID == id)
+//@   closure 0 ensures true
+//@   loop 0 invariant pinned-never-target: ghost.a2_remoteTargetAdded == old(ghost.a2_remoteTargetAdded)
+//@   loop 0 invariant added-local-with-decision: forall j int :: 0 <= j && j < $i ==> (v1WorkspaceTargeting.moduleBucketsAndTargeting[j].bucketID in ghost.a2_localAdds) && ghost.a2_localAdds[v1WorkspaceTargeting.moduleBucketsAndTargeting[j].bucketID] == v1WorkspaceTargeting.moduleBucketsAndTargeting[j].moduleTargeting.isTargetModule
+//@   loop 0 invariant only-workspace-modules: forall id string :: (id in ghost.a2_localAdds) && !(id in old(ghost.a2_localAdds)) ==> (exists j int :: 0 <= j && j < $i && v1WorkspaceTargeting.moduleBucketsAndTargeting[j].bucketID == id)
+//@   loop 1 invariant no-remote-target: ghost.a2_remoteTargetAdded == old(ghost.a2_remoteTargetAdded) && ghost.a2_localAdds == $entry(ghost.a2_localAdds)
+//@   loop 1 invariant pinned-keys-added: forall j int :: 0 <= j && j < $i ==> bufLockFile.DepModuleKeys()[j] in ghost.a2_remoteAdds
+//@   assert before "v1BufYAMLObjectData, err := bufconfig.GetBufYAMLV1Beta1OrV1ObjectDataForPrefix(" pinned-keys-of-this-module-added: err == nil ==> (forall j int :: 0 <= j && j < len(bufLockFile.DepModuleKeys()) ==> bufLockFile.DepModuleKeys()[j] in ghost.a2_remoteAdds)
